@@ -80,7 +80,9 @@ static const MPT_STRUCT(type_traits) tr_m8 = { init8, fini8, 8 };
 static const MPT_STRUCT(type_traits) tr_n4 = { init4, fini4, 4 };
 /* destructor only (as the element type of reference_array<T>): such buffers are created with BufferNoCopy, the
  * owner constructs the elements in place */
-static const MPT_STRUCT(type_traits) tr_f8 = { 0, fini8, 8 };
+/* a zeroed element of this type is an empty reference: nothing to release */
+static void fini8n(void *p) { if (rdtok(p)) el_fini(p, 8); }
+static const MPT_STRUCT(type_traits) tr_f8 = { 0, fini8n, 8 };
 #endif
 
 #ifdef DRV_ELEM
@@ -226,6 +228,7 @@ static void check_stored(int final)
 		const uint8_t *d = (const uint8_t *) (b + 1);
 		for (size_t p = 0; p + t->size <= b->_used; p += t->size) {
 			unsigned tok = rdtok(d + p);
+			if (!tok && t == &tr_f8) continue;      /* empty element */
 			if (tok >= MAXTOK || !live[tok]) { mark_illegal("stored-dead", tok); continue; }
 			if (seen[tok]) mark_illegal("stored-twice", tok);
 			seen[tok] = 1;
